@@ -19,6 +19,31 @@ for name, m in p.modules.items():
                     cs.append(t.id)
     if cs:
         consts[name] = cs
-json.dump({'functions': funcs, 'constants': consts, 'repo_head': os.popen('git -C /repo rev-parse --short HEAD').read().strip()},
+# which baseline functions the Expander can fold into one expression on the baseline tree: on any later tree exactly these
+# (and helpers that are new) are inlined, so that a rule sees a call of a baseline function whenever it saw one here
+from sa.types import Typer
+from sa.flow import Expander
+import sa.flow as _flow
+_flow.BASELINE_GATE = False
+typer = Typer(p)
+inl = []
+for q, f in sorted(p.funcs.items()):
+    if f.kind in ('nested', 'lambda'):
+        continue
+    try:
+        if Expander(p, f, typer)._callee_value(f, 0) is not None:
+            inl.append(q)
+    except Exception:
+        pass
+# local names of every baseline function: a local constant with a NEW name (`one_day = timedelta(days=1)`) is folded by the
+# normaliser, the locals the rules were written against stay
+from sa.model import walk_no_nested
+locs = {}
+for q, f in sorted(p.funcs.items()):
+    if f.kind in ('nested', 'lambda') or isinstance(f.node, ast.Lambda):
+        continue
+    names = sorted({n.id for n in ast.walk(f.node) if isinstance(n, ast.Name) and isinstance(n.ctx, ast.Store)})
+    locs[q] = names
+json.dump({'functions': funcs, 'constants': consts, 'inlinable': inl, 'locals': locs, 'repo_head': os.popen('git -C /repo rev-parse --short HEAD').read().strip()},
           open(os.path.join(HERE, 'sa', 'baseline.json'), 'w'), indent=1)
-print(len(funcs), 'functions;', sum(len(v) for v in consts.values()), 'constants')
+print(len(inl), 'inlinable;', len(funcs), 'functions;', sum(len(v) for v in consts.values()), 'constants')
